@@ -148,7 +148,7 @@ PROPS['C05'] = {
     'exhaustive_possible': True,
     'runs': [{'name': 'plain', 'flavour': 'plain', 'driver': 'drv_c05', 'timeout': 1800},
              {'name': 'asan', 'flavour': 'asan', 'driver': 'drv_c05', 'env': {'PV_SCALE': '10'}, 'shards': 6}],
-    'require': {'rows.own_coin_ok': 300, 'pairs.rejected_with_checksum': 600000, 'token_diffs.compared': 3000},
+    'require': {'rows.own_coin_ok': 300, 'pairs.rejected_with_checksum': 600000, 'token_diffs.compared': 3000, 'allcoins.own_coin_ok': 20480},
 }
 MANIFEST_TEXT['C05'] = {'technique': 'runtime monitoring: full 2047-coin rows through encode/decode_explicit (+ auto-detect sample) with token-wise phrase diff',
     'text': 'For every language, sampled seeds and 16 coins A (boundary + random) the phrase produced by the library for A is decoded with A (must return the same seed) and with each of the 2047 other coins (must be exactly ERR_CHECKSUM); phrases for different coins must differ in the second token only. Thorough enumerates all 2048x2047 ordered pairs for two English seeds and 256 A-rows for a seed in every other language.',
@@ -158,7 +158,7 @@ PROPS['C04'] = {
     'level': 'exploration',
     'runs': [{'name': 'asan', 'flavour': 'asan', 'driver': 'drv_c04'}],
     'require': {'keygen.args_equal_model': 30000, 'keygen.key_page_made_inaccessible_on_kdf_return': 1000, 'paths.agree': 8000, 'neighbours.differ': 5000,
-                'keygen.path.created': 5000, 'keygen.path.decoded': 5000, 'keygen.keysize.0': 1000, 'keygen.keysize.4096': 1000},
+                'keygen.path.created': 5000, 'keygen.path.decoded': 5000, 'keygen.keysize.0': 1000, 'keygen.keysize.4096': 1000, 'concurrent.keygens_equal_model': 50000},
 }
 MANIFEST_TEXT['C04'] = {'technique': 'runtime monitoring: PBKDF2 monitor records all seven arguments of every call; compared with the model; key buffer guarded by ASan red zones / mprotect',
     'text': 'Every polyseed_keygen call of the workload (seeds reached by create, load, decode from every language, double crypt, stored-encrypted-then-decrypted; boundary and random coins; key sizes 0..4096) must invoke the injected KDF exactly once with the exact password, lengths, salt, 10000 iterations and the caller\'s buffer; the buffer must afterwards hold exactly what the monitor wrote, and in a sub-sample the page is made inaccessible when the monitor returns so that any later access by the library faults. An online map asserts one KDF input per abstract (seed, coin) and one abstract key per KDF input.',
